@@ -192,6 +192,10 @@ class EquationSolver(object):
                 did_any = True
                 time_zero_constants[var] = val
                 variables[var] = [val, ]
+        for var in variables:
+            for val in variables[var]:
+                if isinstance(val, float) and (isnan(val) or isinf(val)):
+                    raise ValueError('Initial or exogenous value is not a finite number: ' + var)
         self.TimeSeries = variables
 
     def CalculateInitialSteadyState(self):
